@@ -392,6 +392,16 @@ PROPS['C03']['more_proof_modules'] = ['GeodeVerif.Proofs.C03b']
 PROPS['C03']['required_theorems'] += ['latStep_deriv', 'latStep_contraction_global', 'exit_close_to_fixed_point',
                                       'xyz2llh_exit_error_bound', 'fixed_point_exists', 'xyz2llh_llh2xyz_lat_error']
 
+PROPS['C20']['more_proof_modules'] = ['GeodeVerif.Proofs.C20b']
+PROPS['C20']['api_modules'] = ['GeodeVerif.Proofs.C20b']
+PROPS['C20']['needs_api'] = True
+PROPS['C20']['required_theorems'] += ['gen_vincinv', 'gen_vincdir', 'gen_routes', 'gen_index', 'gen_in_table', 'gen_out_table',
+                                      'gen_vincinv_wiring', 'gen_vincdir_wiring']
+PROPS['C20']['rule'] = ('regenerated: translator/api2lean.py turns api/app.py into GenF/Api.lean on every run and Proofs/C20b.lean '
+                        'proves it equal to the hand model (handlers, dispatch tables, routes). ' + PROPS['C20']['rule'])
+PROPS['C20']['trusted_base'] = ['translator/api2lean.py and the two Python-call combinators Api.convIn / Api.passIn (a converter '
+                                'applied to an absent query number; a number handed to the library unconverted)',
+                                'Model/Api.lean: hand-written model of api/app.py (wiring only), proved equal to the regenerated reading']
 PROPS['C18']['more_proof_modules'] = ['GeodeVerif.Proofs.C18b']
 PROPS['C18']['required_theorems'] += ['refinement_remove_velocity', 'remove_velocity_exact', 'readers_exact',
                                       'wf_closed_removeStns', 'wf_closed_removeVel', 'edits_compose']
